@@ -145,6 +145,7 @@ type StepRec struct {
 	Crashed        bool
 	CrashStage     int
 	Restarted      bool
+	ManualSnap     bool // the MsgSnap released in this step was sent by the application, not produced by raft
 	RestartApplied uint64
 	CommitRepaired bool
 
@@ -921,6 +922,17 @@ func (w *World) exec(ev Event, n *Node, rec *StepRec) {
 	case EvUnreachable:
 		w.Budget[BUnreach]--
 		n.RN.ReportUnreachable(uint64(ev.Peer))
+	case EvSendSnap:
+		// the application of a leader ships the snapshot its storage holds on its own initiative
+		if w.Budget[BSendSnap] > 0 {
+			w.Budget[BSendSnap]--
+		}
+		if vs := n.vs(); vs.State == raft.StateLeader {
+			if snap, err := n.Disk.Snapshot(); err == nil && snap.GetMetadata().GetIndex() > 0 {
+				rec.ManualSnap = true
+				w.release(rec, &pb.Message{Type: pb.MsgSnap.Enum(), From: new(n.ID), To: new(uint64(ev.Peer)), Term: new(vs.Term), Snapshot: proto.Clone(snap).(*pb.Snapshot)})
+			}
+		}
 	case EvReportSnap:
 		for i, p := range n.SnapObl {
 			if p == uint64(ev.Peer) {
